@@ -68,6 +68,10 @@ type EngineOpts struct {
 	// BusySinkMs > 0: when the event stream ends, the reader of the device's MIDI output is busy for this long (the
 	// output queue is full and nothing is taken from it), then reads on.
 	BusySinkMs int
+	// Bystander: a second device of the same configuration (another keyboard of the same model) that is connected for the
+	// whole run; these steps are played on it before the history starts, its keys stay as they are, and it is
+	// disconnected after the device under test. Nothing it does may show in the other device's output.
+	Bystander []Step
 }
 
 // axisInfo collects AbsInfo for all axes of a description.
@@ -185,6 +189,15 @@ func RunDevice(cfg config.Config, d *Desc, steps []Step, opts EngineOpts) (res R
 	}()
 	if res.Panic != "" {
 		return res
+	}
+
+	if len(opts.Bystander) > 0 {
+		stop, problem := startBystander(cfg, d, opts)
+		if problem != "" {
+			res.Stuck = "bystander device: " + problem
+			return res
+		}
+		defer stop()
 	}
 
 	done := make(chan string, 1)
@@ -347,6 +360,51 @@ fill:
 	time.Sleep(150 * time.Millisecond)
 	take(&r.Late)
 	return r
+}
+
+// startBystander runs a second device with its own channels and plays opts.Bystander on it (fenced). The returned
+// function disconnects it and waits for its processing to end.
+func startBystander(cfg config.Config, d *Desc, opts EngineOpts) (stop func(), problem string) {
+	out := make(chan midi.Event, 1<<16)
+	in := make(chan *input.InputEvent)
+	inDev := makeInputDevice(d, "verif bystander")
+	var dev device.Device
+	func() {
+		defer func() {
+			if p := recover(); p != nil {
+				problem = fmt.Sprintf("NewDevice: %v", p)
+			}
+		}()
+		dev = device.NewDevice(inDev, config.DeviceConfig{ConfigFile: "verif.toml", ConfigType: "user", Config: cfg}, out, make(chan midi.Event), true, opts.OpenRGBPort, make(chan os.Signal, 1024))
+	}()
+	if problem != "" {
+		return nil, problem
+	}
+	done := make(chan struct{})
+	go func() {
+		defer close(done)
+		defer func() { recover() }()
+		dev.ProcessEvents(in)
+	}()
+	syn := &input.InputEvent{Source: handlerFor(&inDev, ""), Event: evdev.InputEvent{Type: evdev.EV_SYN}}
+	for _, s := range opts.Bystander {
+		for _, ev := range []*input.InputEvent{toInputEvent(&inDev, s), syn} {
+			select {
+			case in <- ev:
+			case <-done:
+				return nil, "ended while its event stream was open"
+			case <-time.After(opts.ReturnGuard):
+				return nil, "stopped consuming events\n" + allStacks()
+			}
+		}
+	}
+	return func() {
+		close(in)
+		select {
+		case <-done:
+		case <-time.After(opts.ReturnGuard):
+		}
+	}, ""
 }
 
 func allStacks() string {
